@@ -76,4 +76,7 @@ KernelPre(name, pre, a) ==
   /\ name = "mulAdd10VWW" => Lt(a.r, KB)
   /\ name = "div10VWW" => Gt(a.y, Zero) /\ Lt(a.y, KB) /\ Lt(a.r, a.y)
   /\ name \in {"shl10VU", "shr10VU"} => a.s >= 0 /\ a.s < KW
+  \* overlap: the destination is the source, or disjoint from it, or (shifts only: dec.shl / dec.shr move a value inside
+  \* one buffer) at or above the source for shl10VU, at or below it for shr10VU
+  /\ (a.zo = a.xo \/ a.zo >= a.xo + a.n \/ a.xo >= a.zo + a.n \/ (name = "shl10VU" /\ a.zo > a.xo) \/ (name = "shr10VU" /\ a.zo < a.xo))
 =============================================================================
